@@ -209,6 +209,7 @@ type pathExec struct {
 	shaConcreteOverflow bool
 	inBlocked int
 	sleeps    int
+	dialConn  value
 	blockedRetries int
 	dbg       []string
 	prefer    *term // witness preference for the next assertion (model selection only)
